@@ -703,6 +703,36 @@ class StrLang:
                     table = union(complement(present), at0)
                 if table is not None:
                     return table
+            if (
+                isinstance(a, ast.Call) and isinstance(a.func, ast.Name) and a.func.id == "len" and len(a.args) == 1
+                and isinstance(a.args[0], ast.Call) and isinstance(a.args[0].func, ast.Attribute) and a.args[0].func.attr == "split" and not a.args[0].args and not a.args[0].keywords
+                and isinstance(a.args[0].func.value, ast.Name) and a.args[0].func.value.id in views
+                and isinstance(b, ast.Constant) and isinstance(b.value, int) and not isinstance(b.value, bool) and 0 <= b.value <= 4
+            ):
+                # len(s.split()) <op> n: the number of whitespace-separated tokens (leading / trailing blanks are
+                # dropped by str.split(): ' a ' has ONE token)
+                import operator as _o3
+
+                cmpf = {ast.Eq: _o3.eq, ast.NotEq: _o3.ne, ast.Lt: _o3.lt, ast.LtE: _o3.le, ast.Gt: _o3.gt, ast.GtE: _o3.ge}.get(type(o))
+                if cmpf is not None:
+                    ws, nw = L.sym(self.WS), L.sym(self.alpha.all - self.WS)
+                    ws_star, ws_plus, tok = L.star(self.WS), minimise(L.concat(ws, L.star(self.WS))), minimise(L.concat(nw, L.star(self.alpha.all - self.WS)))
+                    n_ = b.value
+                    exact = [ws_star]
+                    for k_ in range(1, n_ + 2):
+                        body = tok
+                        for _ in range(k_ - 1):
+                            body = minimise(L.concat(body, L.concat(ws_plus, tok)))
+                        exact.append(minimise(L.concat(ws_star, L.concat(body, ws_star))))
+                    lang = L.EMPTY
+                    upto = L.EMPTY
+                    for k_ in range(n_ + 1):
+                        upto = minimise(union(upto, exact[k_]))
+                        if cmpf(k_, n_):
+                            lang = minimise(union(lang, exact[k_]))
+                    if cmpf(n_ + 1, n_):
+                        lang = minimise(union(lang, complement(upto)))  # more than n tokens
+                    return self.lift(lang, views[a.args[0].func.value.id])
             if isinstance(a, ast.Call) and isinstance(a.func, ast.Name) and a.func.id == "len" and len(a.args) == 1 and isinstance(b, ast.Constant) and isinstance(b.value, int) and not isinstance(b.value, bool) and 0 <= b.value <= 8 and not (b.value == 0 and isinstance(o, (ast.Eq, ast.NotEq, ast.Gt))):
                 # len(s) <op> n: the strings of the lengths that satisfy it (0 .. n, or everything longer)
                 import operator as _o2
@@ -873,5 +903,14 @@ class StrLang:
                 a, b = b, a
             if isinstance(a, ast.Call) and isinstance(a.func, ast.Attribute) and a.func.attr == "split" and not a.args and not a.keywords and isinstance(a.func.value, ast.Name) and a.func.value.id in views and isinstance(b, ast.List) and len(b.elts) == 1 and isinstance(b.elts[0], ast.Name) and b.elts[0].id == a.func.value.id:
                 r = self.lift(inter(L.star(self.alpha.all - self.WS), L.nonempty()), views[a.func.value.id])
+                return r if isinstance(e.ops[0], ast.Eq) else complement(r)
+            # "".join(s.split()) == s: gluing the whitespace-separated tokens together gives s back iff s holds no
+            # whitespace at all (the empty string included)
+            if (
+                isinstance(a, ast.Call) and isinstance(a.func, ast.Attribute) and a.func.attr == "join" and isinstance(a.func.value, ast.Constant) and a.func.value.value == "" and len(a.args) == 1
+                and isinstance(a.args[0], ast.Call) and isinstance(a.args[0].func, ast.Attribute) and a.args[0].func.attr == "split" and not a.args[0].args and not a.args[0].keywords
+                and isinstance(a.args[0].func.value, ast.Name) and a.args[0].func.value.id in views and isinstance(b, ast.Name) and b.id == a.args[0].func.value.id
+            ):
+                r = self.lift(L.star(self.alpha.all - self.WS), views[b.id])
                 return r if isinstance(e.ops[0], ast.Eq) else complement(r)
         raise Unsupported(f"expression `{ast.unparse(e)[:70]}`")
